@@ -3,6 +3,8 @@ package main
 import (
 	"context"
 	"fmt"
+	"github.com/celestiaorg/go-header/p2p"
+	"github.com/libp2p/go-libp2p/core/network"
 	"os"
 	"strings"
 	"time"
@@ -142,7 +144,70 @@ func (e *p2pEnv) c13Case(op string, answers []string, order []int) {
 	emit("C13 op=%s n=%d answers=%s order=%s => hdr=%s err=%s", op, n, strings.Join(answers, ","), strings.Join(os, ","), r, ec)
 }
 
+// all trusted peers accept the stream and never answer, over a transport that honours deadlines: every
+// per-peer request ends with a timeout error once RequestTimeout elapses while the caller's context lives on
+func c13AllHang(op string, n int) {
+	hosts, closeAll, err := peers.NewRealHosts(n + 1)
+	if err != nil {
+		fmt.Fprintln(os.Stderr, "C13 all-hang case skipped:", err) // no loopback transport: nothing observed, nothing claimed
+		return
+	}
+	defer closeAll()
+	stop := make(chan struct{})
+	defer close(stop)
+	ids := make([]peer.ID, 0, n)
+	for _, h := range hosts[1:] {
+		ids = append(ids, h.ID())
+		h.SetStreamHandler(peers.ProtocolID(), func(s network.Stream) {
+			<-stop
+			s.Reset() //nolint:errcheck
+		})
+	}
+	ex, err := p2p.NewExchange[*vhdr.Header](hosts[0], ids, nil,
+		p2p.WithNetworkID[p2p.ClientParameters](peers.NetworkID), p2p.WithChainID("A"),
+		p2p.WithRequestTimeout[p2p.ClientParameters](250*time.Millisecond))
+	if err != nil {
+		panic(err)
+	}
+	if err := ex.Start(context.Background()); err != nil {
+		panic(err)
+	}
+	defer ex.Stop(context.Background()) //nolint:errcheck
+	ctx, cancel := context.WithTimeout(context.Background(), 5*time.Second)
+	defer cancel()
+	r, ec := "zero", "nil"
+	func() {
+		defer func() {
+			if p := recover(); p != nil {
+				ec = "CRASH"
+			}
+		}()
+		var h *vhdr.Header
+		var err error
+		if op == "get" {
+			h, err = ex.Get(ctx, []byte("0123456789abcdef0123456789abcdef"))
+		} else {
+			h, err = ex.GetByHeight(ctx, 60)
+		}
+		if h != nil {
+			r = fmt.Sprintf("unknown:%d:%s", h.H, h.Chain)
+		}
+		if err != nil {
+			ec = "err"
+		}
+	}()
+	order := make([]string, n)
+	for i := range order {
+		order[i] = itoa(i)
+	}
+	emit("C13 op=%s n=%d answers=%s order=%s => hdr=%s err=%s", op, n, strings.Repeat("hang,", n-1)+"hang", strings.Join(order, ","), r, ec)
+}
+
 func runC13(tier string, r *rng) {
+	for _, n := range []int{1, 2, 4} {
+		c13AllHang("get", n)
+		c13AllHang("byheight", n)
+	}
 	e := newP2PEnv(4)
 	defer e.closer()
 	if line := os.Getenv("VERIF_REPLAY_CASE"); line != "" {
